@@ -378,11 +378,21 @@ def wrap(ty, t):
 # BIT(w, p): bit p of the machine word w, as an *uninterpreted* predicate in the list-level VCs (positions are Ints,
 # words are bit vectors; the lemma layer defines it by the 32-way macro - never int2bv)
 BIT = z3.Function("BIT", z3.BitVecSort(BVW), z3.IntSort(), z3.BoolSort())
+# BIT(w, p): bit p of word w with an Int position p.  In list-level VCs it is used uninterpreted (only its argument
+# structure matters there); its definition `bit_macro` is the bridge used by the word-level VCs and the lemma layer.
 
 
 def bit_macro(w, p, width=32):
-    """definition of BIT for 0 <= p < width"""
+    """definition of BIT(w, p): the `width`-way macro (false outside 0..width-1); never int2bv"""
+    if isinstance(p, int):
+        return z3.Extract(p, p, w) == 1 if 0 <= p < width else z3.BoolVal(False)
     return z3.Or(*[z3.And(p == c, z3.Extract(c, c, w) == 1) for c in range(width)])
+
+
+def bit_definition(words, width=32):
+    """the definitional axiom BIT(w, p) == bit_macro(w, p) instantiated for the given word terms"""
+    p = z3.Int("p!bitdef")
+    return [z3.ForAll([p], BIT(w, p) == bit_macro(w, p, width)) for w in words]
 
 
 class BitStr(Sym):
@@ -397,3 +407,19 @@ class BitChar(Sym):
 
     def __init__(self, w, pos):
         self.w, self.pos = w, pos
+
+
+def netmask_of(plen):
+    """netmask word of a prefix length given as Int: 33-way macro"""
+    t = z3.BitVecVal(0, BVW)
+    for c in range(32, -1, -1):
+        t = z3.If(plen == c, z3.BitVecVal((0xFFFFFFFF << (32 - c)) & 0xFFFFFFFF, BVW), t)
+    return t
+
+
+POW2 = z3.Function("pow2", z3.IntSort(), z3.IntSort())
+TBIT = z3.Function("tuple_bit", z3.IntSort(), z3.IntSort(), z3.IntSort())   # TBIT(t, p): bit p of the index t of a 0/1 tuple
+IP_OK = z3.Function("ipv4_text_ok", z3.StringSort(), z3.BoolSort())
+IP_PARSE = z3.Function("ipv4_text_value", z3.StringSort(), z3.BitVecSort(BVW))
+WS_LEN = z3.Function("ws_split_len", z3.StringSort(), z3.IntSort())
+WS_ARR = z3.Function("ws_split_arr", z3.StringSort(), z3.ArraySort(z3.IntSort(), z3.StringSort()))
